@@ -127,6 +127,29 @@ impl AsyncRead for File {
                 lim = lim.min(((at - done) as usize).max(1));
             }
         }
+        if !self.created {
+            let shrink = sim_core::with(|w| match w.fs.shrink_after.get(&idx).copied() {
+                Some((after, to)) if w.fs.bytes_read[idx] >= after => {
+                    w.fs.shrink_after.remove(&idx);
+                    w.count("fault.fs_file_shrinks_while_read");
+                    Some(to)
+                }
+                Some((after, _)) => {
+                    lim = lim.min(((after - w.fs.bytes_read[idx]) as usize).max(1));
+                    None
+                }
+                None => None,
+            });
+            if let Some(to) = shrink {
+                // (through a second, writable handle: ours is read-only)
+                let path = sim_core::with(|w| w.fs.opened.get(idx).cloned());
+                if let Some(p) = path {
+                    if let Ok(f) = std::fs::OpenOptions::new().write(true).open(&p) {
+                        let _ = f.set_len(to);
+                    }
+                }
+            }
+        }
         let n = io_len(lim);
         let r = self.inner.read(&mut buf[..n]);
         if let Ok(k) = &r {
